@@ -14,7 +14,7 @@ Fixpoint msg_pure (idx : list Z) (flag : Z) (c : cache) (acc : bytes) : option b
     | None => msg_pure t flag c acc
     | Some v =>
       if Z.testbit flag (i - 1) then msg_pure t flag c acc
-      else match v with VOne (ABytes b) => msg_pure t flag c (acc ++ b) | _ => None end
+      else match v with VOne (ABytes b) | VOne (AByteArr b) => msg_pure t flag c (acc ++ b) | _ => None end
     end
   end.
 Definition fields18 : list Z := [1;2;3;4;5;6;7;8].
@@ -84,7 +84,7 @@ Proof.
   unfold act. cbn [bind interp step].
   destruct (cache_get (st_cache st) (sigfield_key i)) as [v|]; [|apply IH].
   destruct (Z.testbit flag (i - 1)); [apply IH|].
-  destruct v as [[b| | | | | |]|]; try reflexivity. apply IH.
+  destruct v as [[b| | | | | |b]|]; try reflexivity; apply IH.
 Qed.
 
 Theorem get_message_core_spec flag fr st :
